@@ -251,7 +251,7 @@ func recvName(f *types.Func) string {
 		t = p.Elem()
 	}
 	if n, ok := t.(*types.Named); ok {
-		return "(" + n.Obj().Name() + ")."
+		return "(" + canonType(n.Obj().Name()) + ")."
 	}
 	return ""
 }
